@@ -1313,6 +1313,11 @@ impl DbInner {
 					reader.next()?;
 				}
 				loop {
+					// Between two table writes of one record (also before the first one and after
+					// the last one): some of the record's locations are in the files, the others
+					// are not, all of them are in the log overlay.
+					#[cfg(pdb_verif)]
+					crate::verif::yield_point("enact_logs.before_action");
 					match reader.next()? {
 						LogAction::BeginRecord =>
 							return Err(Error::Corruption("Bad log record".into())),
